@@ -322,7 +322,7 @@ def isolation_case(case):
 
 
 def explorers(tier, seed):
-    depth = 3 if tier == "thorough" else 2
+    depth = 4 if tier == "thorough" else 2
     cases = [(name, si, depth, seed) for name in M.ESTIMATORS for si in range(len(SPECS[name]))]
     if seed != 1:
         cases.append(("SparseLinearModel", 1, 1, 1))      # witness of KF-C12-1, independent of VERIF_SEED
